@@ -2,6 +2,7 @@
 local limit on failure; server quotas take effect again on recovery."""
 import os
 
+from vf import core
 from vf.core import cZ, cbool, clist, copt, cpair
 
 PID = "C09"
@@ -43,6 +44,34 @@ ASSUMPTIONS = [
     "in-flight requests across a limiter replacement are C05's subject; every TryAcquire of the wrappers ends in the "
     "underlying limiter's TryAcquire (read, and observed for max-in-flight by counting admissions)",
 ]
+
+COUNTER_FILE = "pkg/flowcontrols/remote/remote_counter.go"
+ACQ_GO = '\tgo func() {\n\t\tdefer func() {\n\t\t\tmetrics.RecordRateLimiterRequest(g.cluster, "acquire"'
+
+
+def prepare():
+    """Instrumented copy of the CURRENT remote_counter.go (textual, so that any change of the original survives):
+    time.Now() -> verifNow() (virtual clock), the 900 ms ticker of resetCheck -> a ticker fired by the harness,
+    the worker goroutine not started in manual mode (the harness plays its rounds), the reply goroutine of
+    doAcquire counted so that a round can be awaited.  The hooks live in harness/exports/remote_c09_clock.go."""
+    out = os.path.join(core.BUILD, "C09", "remote_counter_instrumented.go")
+    os.makedirs(os.path.dirname(out), exist_ok=True)
+    try:
+        src = open(os.path.join(core.REPO, COUNTER_FILE)).read()
+    except OSError:
+        src = ""
+    gen = src.replace("time.Now()", "verifNow()")
+    gen = gen.replace("go g.limitWorker(stopCh)", "verifStartWorker(func() { g.limitWorker(stopCh) })")
+    gen = gen.replace("ticker := time.NewTicker(MaxIdealDuration)", "ticker := verifNewTicker(g)")
+    gen = gen.replace(ACQ_GO, "\tverifAcquireStart()\n\tgo func() {\n\t\tdefer verifAcquireDone()\n" + ACQ_GO[len("\tgo func() {\n"):])
+    old = open(out).read() if os.path.exists(out) else None
+    if old != gen:
+        with open(out, "w") as f:
+            f.write(gen)
+    return out
+
+
+prepare()
 
 I32MIN, I32MAX = -2 ** 31, 2 ** 31 - 1
 STRATS = ["globalAllocate", "globalCount", "local", "", "zzz"]
@@ -92,6 +121,16 @@ def q_both(m, q, b, s="globalAllocate"):
 
 
 DEL = {"op": "delete"}
+
+
+def wk(srv, limit=0, idle=False, mx=0, rate=0):
+    """one round of the counter manager's worker against the limiter server: accept | reject | error | callerr | omit"""
+    return {"op": "worker", "idle": idle, "srv": srv, "limit": limit, "mx": mx, "rate": rate}
+
+
+def wd(mx=0, rate=0):
+    """one tick of the counter's watchdog (resetCheck)"""
+    return {"op": "watchdog", "mx": mx, "rate": rate}
 
 
 def ok(accept, limit, rt):
@@ -200,6 +239,20 @@ def corpus():
                              hb(False), el(4.999), hb(False), el(0.002), hb(False)]))
     cs.append(mi(5, 20, ops=[q_mi(12), leader("b"), hb(False), el(3), hb(True), el(3), hb(False), el(3), hb(False), el(3), hb(False)]))
     cs.append(mi(5, 20, ops=[hb(False), el(9), hb(False), q_mi(12), leader("c"), leader("b"), hb(False), el(9), leader("c")]))
+    # the counter manager: worker rounds against the limiter server, missing replies, the 4 s watchdog, the 2 s resync
+    cs.append(mi(3, 20, strat="globalCount", ops=[hb(True), CFG, wk("accept", 12), el(2), wk("omit", idle=True), el(1),
+                                                 wk("omit", idle=True), el(1), wd(1), el(1), wd(1), wd(9), wk("accept", 9),
+                                                 wk("callerr", mx=7), wk("error", idle=True, mx=7), el(3), wk("accept", 30, idle=True)]))
+    cs.append(mi(3, 20, strat="globalCount", ops=[hb(True), CFG, wk("accept", 12), el(5), wd(25), wk("omit"), el(5), wd(1),
+                                                 wk("reject", 5), wk("accept", 8), el(4.999), wd(2), el(0.001), wd(2)]))
+    cs.append(mi(3, 20, strat="globalCount", ops=[hb(True), CFG, el(4), wd(1), CFG, el(1), wd(6), CFG, wk("accept", 10), el(9),
+                                                 CFG, wk("omit"), CFG, wd(0), st("globalAllocate"), wd(0), wk("accept", 1)]))
+    cs.append(tb(5, 10, 100, 50, strat="globalCount", ops=[hb(True), CFG, wk("accept", 3, idle=True), el(3), wk("accept", 3, idle=True),
+                                                          el(5), wd(0, 70), wk("omit", idle=True), el(3), wk("accept", 1, idle=True)]))
+    cs.append(mi(3, 20, strat="globalCount", cs="zero", ops=[CFG, wk("accept", 12), el(6), wd(4), wk("accept", 12)]))
+    cs.append(mi(3, 20, strat="globalCount", ops=[hb(True), CFG, wk("accept", 12), ok(True, 15, 10 ** 13), wk("accept", 9), el(9),
+                                                 wk("accept", 9), sch(1, 2, 3, 4, kind="tb"), wd(0), wk("accept", 1), CFG, el(5),
+                                                 wd(0, 2), DEL, wd(0), wk("omit")]))
     return [fix_schema_ops(c) for c in cs]
 
 
@@ -314,6 +367,40 @@ def fresh_limits(rng, kind):
 ELAPSE_MS = [1, 100, 1000, 2000, 4000, 4999, 5000, 5001, 6000]
 
 
+def gen_worker(rng, cur):
+    """the counter-manager layer: worker rounds against the limiter server (accept / reject / error / failed call /
+    missing reply), time passing, watchdog ticks; silences around the 2 s resync and the 4 s watchdog thresholds"""
+    tbk = cur["kind"] == "tb"          # token bucket: only idle rounds (whether a busy round asks depends on its token pool)
+
+    def round_():
+        srv = rng.choice(["accept", "accept", "accept", "reject", "error", "callerr", "omit", "omit"])
+        mx = rng.choice([0, 1, cur["l1"], cur["g1"], cur["g1"] + 3, rng.randint(0, 80)])
+        rate = rng.choice([0, 1, cur["l1"], cur["g1"], min(cur["g1"] + 3, I32MAX), rng.randint(0, 2000)])
+        return wk(srv, clip(vocab(rng, cur["l1"], cur["g1"])), idle=tbk or rng.below(3) == 0, mx=clip(mx), rate=clip(rate))
+
+    def tick():
+        return wd(clip(rng.choice([0, 1, cur["l1"], cur["g1"] + 3, rng.randint(0, 80)])),
+                  clip(rng.choice([0, 1, cur["l1"], min(cur["g1"] + 3, I32MAX), rng.randint(0, 2000)])))
+
+    k = rng.below(10)
+    if k < 4:
+        return [round_()]
+    if k < 6:
+        return [tick()]
+    out = [round_()] if rng.below(2) == 0 else []          # a silence: the server stops answering for the schema
+    for _ in range(rng.randint(1, 3)):
+        out.append({"op": "elapse", "ms": rng.choice([1000, 2000, 3000, 4000, 4999, 5000, 6000])})
+        j = rng.below(4)
+        if j == 0:
+            out.append(wk("omit", idle=tbk or rng.below(2) == 0))
+        elif j == 1:
+            out.append(CFG)
+    out.append(tick())
+    if rng.below(2) == 0:
+        out.append(round_())
+    return out
+
+
 def gen_case(rng, tier):
     """one history: a stateful walk that tracks the schema currently configured (type, strategy, limits,
     present or deleted) so that answers, schema updates and stale answers of the previous type relate to it."""
@@ -357,7 +444,10 @@ def gen_case(rng, tier):
             if rng.below(3) == 0:
                 ops.append(dict(o))             # the server repeats its answer: the steady state
         elif k < (50 if count_heavy else 46):
-            ops.append(gen_count(rng, cur, rtstate))
+            if rng.below(5) < 2:
+                ops.append(gen_count(rng, cur, rtstate))
+            else:
+                ops.extend(gen_worker(rng, cur))
         elif k < (60 if count_heavy else 50):
             ops.append(CFG)
         elif k < 68:
@@ -455,6 +545,12 @@ def coq_ev(o):
         else:
             r = "(ROk %s %s)" % (cbool(o["accept"]), cZ(o["limit"]))
         return "(ECount %s %s)" % (r, cZ(o["rt"]))
+    if k == "worker":
+        sv = {"accept": "(SvAccept %s)" % cZ(o["limit"]), "reject": "(SvReject %s)" % cZ(o["limit"]), "error": "SvError",
+              "callerr": "SvCallErr", "omit": "SvOmit"}[o["srv"]]
+        return "(EWorker %s %s %s %s)" % (cbool(o["idle"]), sv, cZ(o["mx"]), cZ(o["rate"]))
+    if k == "watchdog":
+        return "(EWatchdog %s %s)" % (cZ(o["mx"]), cZ(o["rate"]))
     if k == "hb":
         return "(EHb %s)" % cbool(o["ready"])
     if k == "elapse":
@@ -495,12 +591,12 @@ def coq_rem(r):
 
 
 def coq_obs(s):
-    return ("(Build_obs %s %s %s %s %s %s)" %
+    return ("(Build_obs %s %s %s %s %s %s %s %s)" %
             (cbool(s["evp"]), SEL.get(s["sel"], "SelDefault"), coq_lim(s["lim"]), cZ(s["adm"]), cbool(s["ready"]),
-             coq_rem(s["rem"])))
+             coq_rem(s["rem"]), cZ(s.get("lsync", -1)), cbool(s.get("sent", False))))
 
 
-PANIC_OBS = {"evp": True, "sel": "panic", "lim": None, "adm": -1, "ready": False, "rem": None}
+PANIC_OBS = {"evp": True, "sel": "panic", "lim": None, "adm": -1, "ready": False, "rem": None, "lsync": -1, "sent": False}
 MODE = {"remote": "MRemote", "local": "MLocal"}
 CSK = {"ok": "CSOk", "zero": "CSZero", "nil": "CSNil"}
 
